@@ -12,12 +12,13 @@
   the rational entry.
 -/
 import Model.Parser
+import Lemmas.ParserLemmas
 import Mathlib.Tactic.Ring
 import Mathlib.Tactic.FieldSimp
 import Mathlib.Algebra.Field.Basic
 
 namespace PV.Proofs.C17
-open PV
+open PV PV.ParserLemmas
 
 /-! ### the grammar -/
 
@@ -67,6 +68,7 @@ def Op.render (o : Op) : List Char :=
 
 /-! ### well-formedness (explicit, decidable) -/
 
+
 def Body.isX : Body → Bool | .x => true | _ => false
 def Body.isY : Body → Bool | .y => true | _ => false
 def Body.isConst : Body → Bool | .num _ => true | .frac _ _ => true | _ => false
@@ -84,6 +86,110 @@ def Comp.WF (c : Comp) : Bool :=
 
 def Op.WF (o : Op) : Bool := o.c0.WF && o.c1.WF
 
+/-! ### helper lemmas: characters of the rendering -/
+
+theorem digit_facts : ∀ d : Fin 10,
+    digitChar d.val ≠ 'x' ∧ digitChar d.val ≠ 'y' ∧ digitChar d.val ≠ '*' ∧
+    digitChar d.val ≠ '/' ∧ digitChar d.val ≠ '-' ∧
+    ('0' ≤ digitChar d.val ∧ digitChar d.val ≤ '9') ∧ digitVal (digitChar d.val) = d.val ∧
+    digitChar d.val ≠ ',' ∧ digitChar d.val ≠ '(' ∧ digitChar d.val ≠ ')' := by decide
+
+/-- not a comma and not a brace -/
+def Plain (ch : Char) : Prop := ch ≠ ',' ∧ ch ≠ '(' ∧ ch ≠ ')'
+
+theorem plain_digit (d : Nat) (hd : d < 10) : Plain (digitChar d) := by
+  have := digit_facts ⟨d, hd⟩
+  exact ⟨this.2.2.2.2.2.2.2.1, this.2.2.2.2.2.2.2.2.1, this.2.2.2.2.2.2.2.2.2⟩
+
+theorem plain_spaces (n : Nat) : ∀ ch ∈ spaces n, Plain ch := by
+  intro ch h
+  have := List.eq_of_mem_replicate h
+  subst this
+  unfold Plain; decide
+
+theorem Body.render_plain (b : Body) (sp2 sp3 : Nat) (h : b.digitsOk = true) :
+    ∀ ch ∈ b.render sp2 sp3, Plain ch := by
+  intro ch hch
+  cases b with
+  | x => simp only [Body.render, List.mem_singleton] at hch; subst hch; unfold Plain; decide
+  | y => simp only [Body.render, List.mem_singleton] at hch; subst hch; unfold Plain; decide
+  | num d =>
+    simp only [Body.digitsOk, decide_eq_true_eq] at h
+    simp only [Body.render, List.mem_singleton] at hch; subst hch
+    exact plain_digit d h
+  | frac d e =>
+    simp only [Body.digitsOk, Bool.and_eq_true, decide_eq_true_eq] at h
+    simp only [Body.render, List.mem_append, List.mem_singleton] at hch
+    rcases hch with (((hch | hch) | hch) | hch) | hch
+    · subst hch; exact plain_digit d h.1.1
+    · exact plain_spaces _ _ hch
+    · subst hch; unfold Plain; decide
+    · exact plain_spaces _ _ hch
+    · subst hch; exact plain_digit e h.2
+
+theorem Term.render_plain (t : Term) (h : t.body.digitsOk = true) :
+    ∀ ch ∈ t.render, Plain ch := by
+  intro ch hch
+  simp only [Term.render, List.mem_append] at hch
+  rcases hch with (((hch | hch) | hch) | hch) | hch
+  · exact plain_spaces _ _ hch
+  · split_ifs at hch
+    · simp only [List.mem_singleton] at hch; subst hch; unfold Plain; decide
+    · simp only [List.mem_singleton] at hch; subst hch; unfold Plain; decide
+    · cases hch
+  · exact plain_spaces _ _ hch
+  · exact Body.render_plain _ _ _ h _ hch
+  · exact plain_spaces _ _ hch
+
+theorem Comp.render_plain (c : Comp) (h : c.all (·.body.digitsOk) = true) :
+    ∀ ch ∈ c.render, Plain ch := by
+  intro ch hch
+  simp only [Comp.render, List.mem_flatMap] at hch
+  obtain ⟨t, ht, hch⟩ := hch
+  exact Term.render_plain t (List.all_eq_true.mp h t ht) ch hch
+
+theorem Body.render_ne_nil (b : Body) (sp2 sp3 : Nat) : b.render sp2 sp3 ≠ [] := by
+  cases b <;> simp [Body.render]
+
+theorem Term.render_ne_nil (t : Term) : t.render ≠ [] := by
+  simp [Term.render, Body.render_ne_nil]
+
+theorem Comp.render_ne_nil (c : Comp) (h : c ≠ []) : c.render ≠ [] := by
+  cases c with
+  | nil => exact absurd rfl h
+  | cons t c => simp [Comp.render, Term.render_ne_nil]
+
+theorem Op.render_eq (o : Op) :
+    o.render = if o.paren then '(' :: ((o.c0.render ++ ',' :: o.c1.render) ++ [')'])
+      else o.c0.render ++ ',' :: o.c1.render := by
+  unfold Op.render
+  cases o.paren <;> simp
+
+/-- after trimming and splitting, a rendered operation is exactly its two rendered components -/
+theorem split_render (o : Op) (h : o.WF = true) :
+    splitTerminator (trimBraces o.render) = [o.c0.render, o.c1.render] := by
+  simp only [Op.WF, Comp.WF, Bool.and_eq_true, decide_eq_true_eq] at h
+  obtain ⟨⟨⟨⟨⟨_, _⟩, _⟩, _⟩, hd0⟩, ⟨⟨⟨⟨hne1, _⟩, _⟩, _⟩, hd1⟩⟩ := h
+  have p0 := Comp.render_plain o.c0 hd0
+  have p1 := Comp.render_plain o.c1 hd1
+  have hl : ∀ ch ∈ o.c0.render ++ ',' :: o.c1.render, isBrace ch = false := by
+    intro ch hch
+    have : ch ≠ '(' ∧ ch ≠ ')' := by
+      rcases List.mem_append.mp hch with hch | hch
+      · exact (p0 ch hch).2
+      · rcases List.mem_cons.mp hch with rfl | hch
+        · decide
+        · exact (p1 ch hch).2
+    simp [isBrace, this.1, this.2]
+  have ht : trimBraces o.render = o.c0.render ++ ',' :: o.c1.render := by
+    rw [Op.render_eq]
+    cases o.paren
+    · exact trimBraces_eq_self _ hl
+    · exact trimBraces_paren _ hl (by simp)
+  rw [ht]
+  exact splitTerminator_two _ _ (fun ch hch => (p0 ch hch).1) (fun ch hch => (p1 ch hch).1)
+    (Comp.render_ne_nil _ hne1)
+
 /-! ### denotation: the value of the expression -/
 
 section
@@ -100,6 +206,215 @@ def Term.eval (t : Term) (x y : K) : K :=
 
 def Comp.eval (c : Comp) (x y : K) : K := (c.map (·.eval x y)).sum
 
+/-! ### the machine on rendered terms -/
+
+theorem run_spaces {α : Type} [Mul α] [Div α] [Neg α] [NatCast α]
+    (s : PState α) (n : Nat) (rest : List Char) :
+    runChars s (spaces n ++ rest) = runChars s rest := by
+  induction n with
+  | zero => rfl
+  | succ n ih =>
+    have hsp : stepChar s ' ' = .ok s := by simp [stepChar]
+    simp only [spaces, List.replicate_succ, List.cons_append]
+    rw [runChars_cons_ok hsp]
+    exact ih
+
+theorem run_sign (neg plus : Bool) (k a b : K) (rest : List Char) :
+    runChars (⟨1, k, none, a, b⟩ : PState K)
+        ((if neg then ['-'] else if plus then ['+'] else []) ++ rest)
+      = runChars ⟨sgn neg, k, none, a, b⟩ rest := by
+  cases neg <;> cases plus <;> simp [runChars, stepChar, sgn]
+
+theorem step_digit_none (sg k a b : K) (d : Nat) (hd : d < 10) :
+    stepChar (⟨sg, k, none, a, b⟩ : PState K) (digitChar d) = .ok ⟨1, sg * (d : K), none, a, b⟩ := by
+  obtain ⟨h1, h2, h3, h4, h5, h6, h7, -⟩ := digit_facts ⟨d, hd⟩
+  simp only at h1 h2 h3 h4 h5 h6 h7
+  simp [stepChar, h1, h2, h3, h4, h5, h6, h7]
+
+theorem step_digit_some (sg k a b : K) (o : Char) (d : Nat) (hd : d < 10) :
+    stepChar (⟨sg, k, some o, a, b⟩ : PState K) (digitChar d)
+      = .ok ⟨1, sg * k / (d : K), none, a, b⟩ := by
+  obtain ⟨h1, h2, h3, h4, h5, h6, h7, -⟩ := digit_facts ⟨d, hd⟩
+  simp only at h1 h2 h3 h4 h5 h6 h7
+  simp [stepChar, h1, h2, h3, h4, h5, h6, h7]
+
+/-- the effect of one term on the machine state -/
+def Term.step (t : Term) (s : PState K) : PState K :=
+  match t.body with
+  | .x => { s with cx := sgn t.neg }
+  | .y => { s with cy := sgn t.neg }
+  | .num d => { s with const := sgn t.neg * (d : K) }
+  | .frac d e => { s with const := sgn t.neg * (d : K) / (e : K) }
+
+theorem Term.step_sign (t : Term) (s : PState K) : (t.step s).sign = s.sign := by
+  unfold Term.step; cases t.body <;> rfl
+
+theorem Term.step_op (t : Term) (s : PState K) : (t.step s).op = s.op := by
+  unfold Term.step; cases t.body <;> rfl
+
+theorem run_body (sg k a b : K) (t : Term) (h : t.body.digitsOk = true) (rest : List Char) :
+    runChars (⟨sg, k, none, a, b⟩ : PState K) (t.body.render t.sp2 t.sp3 ++ rest)
+      = runChars (match t.body with
+          | .x => ⟨1, k, none, sg, b⟩
+          | .y => ⟨1, k, none, a, sg⟩
+          | .num d => ⟨1, sg * (d : K), none, a, b⟩
+          | .frac d e => ⟨1, sg * (d : K) / (e : K), none, a, b⟩) rest := by
+  cases hb : t.body with
+  | x => simp [Body.render, runChars, stepChar]
+  | y => simp [Body.render, runChars, stepChar]
+  | num d =>
+    rw [hb] at h
+    simp only [Body.digitsOk, decide_eq_true_eq] at h
+    simp only [Body.render, List.cons_append, List.nil_append]
+    rw [runChars_cons_ok (step_digit_none sg k a b d h)]
+  | frac d e =>
+    rw [hb] at h
+    simp only [Body.digitsOk, Bool.and_eq_true, decide_eq_true_eq] at h
+    have hslash : stepChar (⟨1, sg * (d : K), none, a, b⟩ : PState K) '/'
+        = .ok ⟨1, sg * (d : K), some '/', a, b⟩ := by simp [stepChar]
+    simp only [Body.render, List.cons_append, List.nil_append, List.append_assoc]
+    rw [runChars_cons_ok (step_digit_none sg k a b d h.1.1), run_spaces,
+      runChars_cons_ok hslash, run_spaces,
+      runChars_cons_ok (step_digit_some 1 (sg * (d : K)) a b '/' e h.2), one_mul]
+
+theorem run_term (s : PState K) (hsign : s.sign = 1) (hop : s.op = none) (t : Term)
+    (h : t.body.digitsOk = true) (rest : List Char) :
+    runChars s (t.render ++ rest) = runChars (t.step s) rest := by
+  obtain ⟨sg, k, op, a, b⟩ := s
+  simp only at hsign hop
+  subst hsign hop
+  simp only [Term.render, List.append_assoc]
+  rw [run_spaces, run_sign, run_spaces, run_body _ _ _ _ t h, run_spaces]
+  unfold Term.step
+  cases t.body <;> rfl
+
+theorem run_comp (c : Comp) (h : c.all (·.body.digitsOk) = true) (s : PState K)
+    (hsign : s.sign = 1) (hop : s.op = none) (rest : List Char) :
+    runChars s (c.render ++ rest) = runChars (c.foldl (fun s t => t.step s) s) rest := by
+  induction c generalizing s with
+  | nil => rfl
+  | cons t c ih =>
+    simp only [List.all_cons, Bool.and_eq_true] at h
+    simp only [Comp.render, List.flatMap_cons, List.append_assoc, List.foldl_cons]
+    rw [run_term s hsign hop t h.1]
+    exact ih h.2 (t.step s) (by rw [Term.step_sign, hsign]) (by rw [Term.step_op, hop])
+
+/-! ### coefficients -/
+
+def Term.cxv (t : Term) : K := match t.body with | .x => sgn t.neg | _ => 0
+def Term.cyv (t : Term) : K := match t.body with | .y => sgn t.neg | _ => 0
+def Term.cv (t : Term) : K :=
+  match t.body with
+  | .num d => sgn t.neg * (d : K)
+  | .frac d e => sgn t.neg * (d : K) / (e : K)
+  | _ => 0
+
+theorem Term.eval_eq (t : Term) (x y : K) : t.eval x y = t.cxv * x + t.cyv * y + t.cv := by
+  unfold Term.eval Term.cxv Term.cyv Term.cv
+  cases t.body <;> simp
+
+theorem Comp.eval_eq (c : Comp) (x y : K) :
+    Comp.eval c x y = (c.map Term.cxv).sum * x + (c.map Term.cyv).sum * y + (c.map Term.cv).sum := by
+  unfold Comp.eval
+  induction c with
+  | nil => simp
+  | cons t c ih =>
+    rw [List.map_cons, List.sum_cons, ih, Term.eval_eq]
+    simp only [List.map_cons, List.sum_cons]
+    ring
+
+theorem fold_cx (c : Comp) (h : (c.filter (·.body.isX)).length ≤ 1) (s : PState K) :
+    (c.foldl (fun s t => t.step s) s).cx
+      = (if c.any (·.body.isX) then 0 else s.cx) + (c.map Term.cxv).sum := by
+  induction c generalizing s with
+  | nil => simp
+  | cons t c ih =>
+    simp only [List.foldl_cons, List.map_cons, List.sum_cons, List.any_cons]
+    obtain ⟨neg, body, plus, s0, s1, s2, s3, s4⟩ := t
+    cases body with
+    | x =>
+      have hc : (c.filter (·.body.isX)).length = 0 := by
+        rw [List.filter_cons_of_pos rfl, List.length_cons] at h
+        omega
+      have hany : c.any (·.body.isX) = false := by
+        rw [List.length_eq_zero_iff, List.filter_eq_nil_iff] at hc
+        simpa using hc
+      rw [ih (by omega), hany]
+      simp [Term.step, Term.cxv, Body.isX]
+    | _ =>
+      have hc : (c.filter (·.body.isX)).length ≤ 1 := by
+        simpa [List.filter_cons, Body.isX] using h
+      rw [ih hc]
+      simp [Term.step, Term.cxv, Body.isX]
+
+theorem fold_cy (c : Comp) (h : (c.filter (·.body.isY)).length ≤ 1) (s : PState K) :
+    (c.foldl (fun s t => t.step s) s).cy
+      = (if c.any (·.body.isY) then 0 else s.cy) + (c.map Term.cyv).sum := by
+  induction c generalizing s with
+  | nil => simp
+  | cons t c ih =>
+    simp only [List.foldl_cons, List.map_cons, List.sum_cons, List.any_cons]
+    obtain ⟨neg, body, plus, s0, s1, s2, s3, s4⟩ := t
+    cases body with
+    | y =>
+      have hc : (c.filter (·.body.isY)).length = 0 := by
+        rw [List.filter_cons_of_pos rfl, List.length_cons] at h
+        omega
+      have hany : c.any (·.body.isY) = false := by
+        rw [List.length_eq_zero_iff, List.filter_eq_nil_iff] at hc
+        simpa using hc
+      rw [ih (by omega), hany]
+      simp [Term.step, Term.cyv, Body.isY]
+    | _ =>
+      have hc : (c.filter (·.body.isY)).length ≤ 1 := by
+        simpa [List.filter_cons, Body.isY] using h
+      rw [ih hc]
+      simp [Term.step, Term.cyv, Body.isY]
+
+theorem fold_const (c : Comp) (h : (c.filter (·.body.isConst)).length ≤ 1) (s : PState K) :
+    (c.foldl (fun s t => t.step s) s).const
+      = (if c.any (·.body.isConst) then 0 else s.const) + (c.map Term.cv).sum := by
+  induction c generalizing s with
+  | nil => simp
+  | cons t c ih =>
+    simp only [List.foldl_cons, List.map_cons, List.sum_cons, List.any_cons]
+    obtain ⟨neg, body, plus, s0, s1, s2, s3, s4⟩ := t
+    cases body with
+    | x =>
+      have hc : (c.filter (·.body.isConst)).length ≤ 1 := by
+        simpa [List.filter_cons, Body.isConst] using h
+      rw [ih hc]
+      simp [Term.step, Term.cv, Body.isConst]
+    | y =>
+      have hc : (c.filter (·.body.isConst)).length ≤ 1 := by
+        simpa [List.filter_cons, Body.isConst] using h
+      rw [ih hc]
+      simp [Term.step, Term.cv, Body.isConst]
+    | _ =>
+      have hc : (c.filter (·.body.isConst)).length = 0 := by
+        rw [List.filter_cons_of_pos rfl, List.length_cons] at h
+        omega
+      have hany : c.any (·.body.isConst) = false := by
+        rw [List.length_eq_zero_iff, List.filter_eq_nil_iff] at hc
+        simpa using hc
+      rw [ih (by omega), hany]
+      simp [Term.step, Term.cv, Body.isConst]
+
+/-- a well-formed component parses to its three coefficients -/
+theorem parseRow_comp (c : Comp) (h : c.WF = true) :
+    parseRow (α := K) c.render
+      = .ok ((c.map Term.cxv).sum, (c.map Term.cyv).sum, (c.map Term.cv).sum) := by
+  simp only [Comp.WF, Bool.and_eq_true, decide_eq_true_eq] at h
+  obtain ⟨⟨⟨⟨_, hx⟩, hy⟩, hk⟩, hd⟩ := h
+  have hinit : (PState.init : PState K) = ⟨1, 0, none, 0, 0⟩ := by
+    simp [PState.init]
+  have hrun := run_comp c hd (PState.init : PState K) (by simp [PState.init])
+    (by simp [PState.init]) []
+  rw [List.append_nil] at hrun
+  simp only [parseRow, hrun, runChars]
+  rw [fold_cx c hx, fold_cy c hy, fold_const c hk, hinit]
+  simp
+
 /-! ### the theorems -/
 
 /-- **C17 (grammar clause).** Every string of the grammar parses, and the resulting matrix is the
@@ -109,7 +424,15 @@ theorem grammar_sound (o : Op) (h : o.WF = true) :
       m.m20 = 0 ∧ m.m21 = 0 ∧ m.m22 = 0 ∧
       ∀ x y : K, m.m00 * x + m.m01 * y + m.m02 = o.c0.eval x y ∧
                  m.m10 * x + m.m11 * y + m.m12 = o.c1.eval x y := by
-  sorry
+  have hs := split_render o h
+  simp only [Op.WF, Bool.and_eq_true] at h
+  refine ⟨_, fromOperations_ok _ _ _ _ _ _ _ _ _ hs (parseRow_comp o.c0 h.1)
+    (parseRow_comp o.c1 h.2), ?_, ?_, ?_, ?_⟩
+  · exact Nat.cast_zero
+  · exact Nat.cast_zero
+  · exact Nat.cast_zero
+  · intro x y
+    exact ⟨(Comp.eval_eq o.c0 x y).symm, (Comp.eval_eq o.c1 x y).symm⟩
 
 end
 
@@ -121,7 +444,25 @@ theorem total (s : List Char) :
     fromOperations (α := Rat) s = .error .tooFew ∨
     fromOperations (α := Rat) s = .error .tooMany ∨
     ∃ c, fromOperations (α := Rat) s = .error (.invalid c) := by
-  sorry
+  match hs : splitTerminator (trimBraces s) with
+  | [] => exact .inr (.inl (fromOperations_few s (by rw [hs]; simp)))
+  | [_] => exact .inr (.inl (fromOperations_few s (by rw [hs]; simp)))
+  | _ :: _ :: _ :: _ =>
+    exact .inr (.inr (.inl (fromOperations_many s (by rw [hs]; simp))))
+  | [r0, r1] =>
+    cases h0 : parseRow (α := Rat) r0 with
+    | error e =>
+      obtain ⟨c, rfl⟩ := parseRow_error r0 e h0
+      exact .inr (.inr (.inr ⟨c, fromOperations_err0 s r0 r1 _ hs h0⟩))
+    | ok p =>
+      cases h1 : parseRow (α := Rat) r1 with
+      | error e =>
+        obtain ⟨c, rfl⟩ := parseRow_error r1 e h1
+        exact .inr (.inr (.inr ⟨c, fromOperations_err1 s r0 r1 p _ hs h0 h1⟩))
+      | ok q =>
+        obtain ⟨a, b, c⟩ := p
+        obtain ⟨d, e, f⟩ := q
+        exact .inl ⟨_, fromOperations_ok s r0 r1 a b c d e f hs h0 h1⟩
 
 /-- the parser's alphabet -/
 def inAlphabet (c : Char) : Bool :=
@@ -134,16 +475,31 @@ theorem invalid_char_reported (s : List Char) (r0 r1 : List Char)
     (hs : splitTerminator (trimBraces s) = [r0, r1])
     (hbad : ∃ c ∈ r0 ++ r1, inAlphabet c = false) :
     ∃ c, inAlphabet c = false ∧ fromOperations (α := Rat) s = .error (.invalid c) := by
-  sorry
+  by_cases hb0 : ∃ c ∈ r0, inAlphabet c = false
+  · obtain ⟨c, hc, h0⟩ := parseRow_bad (α := Rat) r0 hb0
+    exact ⟨c, hc, fromOperations_err0 s r0 r1 _ hs h0⟩
+  · have hg0 : ∀ c ∈ r0, inAlpha c = true := by
+      intro c hc
+      cases hh : inAlpha c with
+      | true => rfl
+      | false => exact absurd ⟨c, hc, hh⟩ hb0
+    have hb1 : ∃ c ∈ r1, inAlpha c = false := by
+      obtain ⟨c, hc, hbad⟩ := hbad
+      rcases List.mem_append.mp hc with hc | hc
+      · exact absurd ⟨c, hc, hbad⟩ hb0
+      · exact ⟨c, hc, hbad⟩
+    obtain ⟨p, h0⟩ := parseRow_good (α := Rat) r0 hg0
+    obtain ⟨c, hc, h1⟩ := parseRow_bad (α := Rat) r1 hb1
+    exact ⟨c, hc, fromOperations_err1 s r0 r1 p _ hs h0 h1⟩
 
 /-- fewer than two components: `tooFew`; more than two: `tooMany` -/
 theorem too_few (s : List Char) (h : (splitTerminator (trimBraces s)).length < 2) :
-    fromOperations (α := Rat) s = .error .tooFew := by
-  sorry
+    fromOperations (α := Rat) s = .error .tooFew :=
+  fromOperations_few s h
 
 theorem too_many (s : List Char) (h : 2 < (splitTerminator (trimBraces s)).length) :
-    fromOperations (α := Rat) s = .error .tooMany := by
-  sorry
+    fromOperations (α := Rat) s = .error .tooMany :=
+  fromOperations_many s h
 
 /-- any two components over the alphabet parse (the parser accepts, e.g., `2x` or `x-`;
 "anything else is … parsed") -/
@@ -151,7 +507,11 @@ theorem alphabet_accepted (s : List Char) (r0 r1 : List Char)
     (hs : splitTerminator (trimBraces s) = [r0, r1])
     (hok : ∀ c ∈ r0 ++ r1, inAlphabet c = true) :
     ∃ m : Mat3 Rat, fromOperations (α := Rat) s = .ok m := by
-  sorry
+  obtain ⟨⟨a, b, c⟩, h0⟩ := parseRow_good (α := Rat) r0
+    (fun c hc => hok c (List.mem_append_left _ hc))
+  obtain ⟨⟨d, e, f⟩, h1⟩ := parseRow_good (α := Rat) r1
+    (fun c hc => hok c (List.mem_append_right _ hc))
+  exact ⟨_, fromOperations_ok s r0 r1 a b c d e f hs h0 h1⟩
 
 /-! ### non-vacuity -/
 
